@@ -58,7 +58,8 @@ CLAIMED = {
  "C07": C("Proof (Coq) for ARBITRARY handlers: the unselected branch of a conditional is irrelevant to value, state and log (C07_lazy); once a part "
           "fails the enclosing list / program / call / conditional / operator returns that failure with exactly the state at the failure, whatever stands "
           "to its right (C07_stop); operands left then right, handler last (C07_operands_in_order); every handler invocation logged once before its "
-          "script runs (C07_call_logged). " + TIE + "Fault enumeration: an Err injected at every invocation index of random trees; the call log is "
+          "script runs (C07_call_logged); the call log is append-only under evaluation - never an entry removed, reordered or rewritten (C07_log_append_only, "
+          "by a generic invariant principle over the whole evaluator, Lemmas/ExecInv.v). " + TIE + "Fault enumeration: an Err injected at every invocation index of random trees; the call log is "
           "compared with a reference semantics.", "Coq kernel; Eval.v; scripted logging closures in the harness.",
           "Coq independence proofs over exec + fault-enumeration correspondence on call logs", "6/C07"),
  "C08": C("Proof (Coq): last registration wins and other names are untouched in all four registries (C08_last_wins), a registration before first use "
@@ -69,8 +70,9 @@ CLAIMED = {
           "Coq kernel; registries as association lists (HashMap insert/get).", "Coq proofs over the registry/dispatch model + history correspondence in fresh processes", "6/C08"),
  "C09": C("Proof (Coq) about the decimal MODEL (rust_decimal is a modelled dependency): ordering/equality compare the denoted rationals at the "
           "common scale (C09_compare), + and - are the exact sum at the larger scale whenever classified exact (C09_add_exact, C09_sub_is_add_neg), * is the "
-          "exact product with the scales added (C09_mul_exact), the exact region is exactly 96 bits / 28 digits (C09_fit_complete). Literals: transcription "
-          "of the crate's parser checked by computation on boundary literals. " + TIE + "Mantissa AND scale compared on 4 000+ operand pairs biased to carries "
+          "exact product with the scales added (C09_mul_exact), the exact region is exactly 96 bits / 28 digits (C09_fit_complete). Literals: every digit string with at most one "
+          "point whose digits denote a number below 2^96 with at most 28 fractional digits evaluates to exactly those digits and that scale (C09_literal, "
+          "proved about the transcription of both phases of the crate's parser); a foreign character invalidates the literal (C09_bad_char). " + TIE + "Mantissa AND scale compared on 4 000+ operand pairs biased to carries "
           "and scale differences; exact rational oracle.", "Coq kernel; Decimal.v = contract of rust_decimal 1.31.0 measured against the crate; `%` outside the known class D21.",
           "Coq proofs over integer-scaled decimals + mantissa/scale correspondence with an exact-rational oracle", "6/C09"),
  "C10": C("Proof (Coq): for every operator table and every string, the model tokenizer never panics, its tokens cover non-empty segments on character "
@@ -79,7 +81,8 @@ CLAIMED = {
           "Coq kernel; longest-match for operator sets that are not prefix-closed is the known finding D12.",
           "Coq proof of a tiling invariant over the tokenizer model + differential correspondence", "6/C10"),
  "C11": C("Proof (Coq), partial. Proved: gaps between tokens are whitespace only (C11_gaps_are_whitespace), the four blanks are skipped alike, string "
-          "payloads are verbatim (C11_strings_verbatim), the call look-ahead skips any amount of blanks (C11_call_lookahead_skips_blanks). Invariance of the "
+          "payloads are verbatim (C11_strings_verbatim), the call look-ahead skips any amount of blanks (C11_call_lookahead_skips_blanks), parentheses are transparent - a parenthesised "
+          "operand yields exactly the inner expression's tree - and must be closed (C11_parens_transparent, C11_parens_must_close). Invariance of the "
           "whole parse under re-layout and re-parenthesisation is decided on each run: every gap of 600 accepted programs rewritten, every subexpression "
           "wrapped in 1/2/5 pairs of parentheses, ASTs compared. " + TIE, "Coq kernel; token spans from the hook.",
           "Coq tokenizer lemmas + metamorphic correspondence (layout and parenthesis variants)", "6/C11"),
@@ -105,7 +108,8 @@ CLAIMED = {
           "follow-up battery on the same context, another context and another thread.", "Coq kernel; panics observed with catch_unwind.",
           "Coq invariant proofs + fault-enumeration correspondence", "6/C15"),
  "C16": C("Proof (Coq): parsing changes nothing but init (C16_parse_pure) and depends only on text and tables (C16_parse_deterministic), an assignment touches one "
-          "name of one context and neither registries nor log (C16_assignment_frame); the model has no hidden state by construction. The force of the check is the tie: "
+          "name of one context and neither registries nor log (C16_assignment_frame); evaluating ANY program on context c leaves every other context "
+          "untouched unless a handler itself evaluates there (C16_other_contexts_untouched, generic invariant over the evaluator); the model has no hidden state by construction. The force of the check is the tie: "
           "histories over 3 contexts vs each context's own calls (reference semantics), the same calls concurrently, repeated evaluation, and 700 failing evaluations on one "
           "persistent thread followed by probes.", "Coq kernel.", "Coq frame lemmas + history / concurrency / soak correspondence", "6/C16"),
  "C17": C("Proof (Coq): integer() returns n exactly for every decimal denoting an integer n in the i64 range whatever its scale, and an error otherwise "
